@@ -50,7 +50,7 @@ def fail_tokens(kind):
 ALL_KINDS = ["xor_add", "mul", "div", "mod", "sdiv", "addmod", "mulmod", "exp", "bytes_len", "arr_sum", "unsat", "two_args", "storage",
                       "signed", "shift", "nested_assert", "conj3", "loop_guard", "arr_loop", "bytes_tail", "disarm", "storage", "storage2",
                       "smod_zero", "mod_zero", "div_zero", "sdiv_zero", "addmod_zero", "mulmod_zero",
-                      "div_zero_hit", "mod_zero_hit", "sdiv_zero_hit", "smod_zero_hit", "nested_stuck", "mul_exp", "two_fail", "multi_width"]
+                      "div_zero_hit", "mod_zero_hit", "sdiv_zero_hit", "smod_zero_hit", "nested_stuck", "mul_exp", "two_fail", "multi_width", "vmassert_hard", "arr_len_mul"]
 
 
 def gen_test(rng, idx, failure=None, kinds=None):
@@ -181,6 +181,20 @@ def gen_test(rng, idx, failure=None, kinds=None):
         # computes that very hash with SHA3 (and touches the slot through it); never fails
         body = [LIT_HASH_WORD, 0, "MSTORE", 32, 0, "SHA3", "SLOAD", "POP"] + arg(0) + [0, "MSTORE", 32, 0, "SHA3", "POP", "STOP"] + bad
         return GenTest(Fn(name, [("x", U)], body), [], False, kind, failure, feats | {"runtime-hash-of-literal-preimage"})
+    if kind == "vmassert_hard":
+        # a vm.assert* whose negation the branching solver cannot decide within its time limit (a small mixing function): the failing branch
+        # has to be kept and handed to the assertion solver.  Fails for exactly one x.
+        C = rng.getrandbits(255) | 1
+        x0 = rng.getrandbits(64)
+        K = ((x0 * C) % (M + 1)) ^ ((x0 << 3) % (M + 1))
+        expr = arg(0) + [("push", C, 32), "MUL"] + arg(0) + [3, "SHL", "XOR"]
+        body = vm("assertNotEq(uint256,uint256)", expr, [("push", K, 32)]) + ["STOP"]
+        return GenTest(Fn(name, [("x", U)], body), [[x0]], True, kind, "vmassert", feats | {"hard-assert-condition"})
+    if kind == "arr_len_mul":
+        # the same failing path once per candidate length of a dynamic array; only some lengths are feasible and infeasibility needs refinement:
+        # x * y == 21 && x == 7 && y == a.length + 3  (feasible for a.length == 0 only)
+        body = (arg(0) + [4, "ADD", "CALLDATALOAD", 3, "ADD"] + arg(2) + ["EQ"] + arg(1) + [7, "EQ", "AND"] + arg(2) + arg(1) + ["MUL", 21, "EQ", "AND", "@bad", "JUMPI", "STOP"] + bad)
+        return GenTest(Fn(name, [("a", ("array", U, None)), ("x", U), ("y", U)], body), [[[], 7, 3]], True, kind, failure, feats | {"dynamic", "same-shape-per-length"}, needs_refinement=True)
     if kind == "multi_width":
         # the same abstract operation at several bit widths on one path: MOD (256), ADDMOD (264) and MULMOD (512) all use the remainder
         # abstraction, MUL (256) and MULMOD (512) the multiplication one; every one of them has to be refined
